@@ -91,7 +91,7 @@ def enum_default_explains(top: sg.T, v: Any, rr: Dict[str, Any]) -> bool:
     if "dec" not in rr:
         # reading the or-ed proxy back through the IntEnum property raises ValueError when
         # v|d is not a member
-        if rr.get("dec_exc") != "ValueError":
+        if rr.get("read_exc") != "ValueError":
             return False
         hit = [False]
 
@@ -251,7 +251,11 @@ def run_py_wire(ck: Check, prop_file: str, want_decode: bool, n_quick=(120, 4), 
             exprs.append(f"((if res_bytes_eqb {model} {impl} then 0 else 1) + "
                          f"(if res_bytes_eqb (Ok (wire t_{i} {cv})) {impl} then 0 else 2))")
             metas.append((i, "enc", k))
-            if want_decode and "enc" in rr:
+            if want_decode and "enc" in rr and "read_exc" in rr:
+                # decode() returned but a field of the decoded message raises when read
+                exprs.append("2")
+                metas.append((i, "dec", k))
+            elif want_decode and "enc" in rr:
                 if "dec" in rr:
                     dv = f"(Ok {pyside.val_from_impl(s.top, rr['dec'])})"
                 else:
@@ -288,11 +292,12 @@ def run_py_wire(ck: Check, prop_file: str, want_decode: bool, n_quick=(120, 4), 
             n_spec_mismatch += 1
             what = {"enc": "encode() bytes differ from the specification",
                     "dec": "decode(encode(v)) differs from v" if "dec" in rr else
-                           f"decode(encode(v)) raised {rr.get('dec_exc')}",
+                           (f"decode(encode(v)) raised {rr.get('dec_exc')}" if "dec_exc" in rr else
+                            f"reading the decoded message raised {rr.get('read_exc')}"),
                     "reenc": "re-encoding the decoded message does not reproduce the bytes"}[kind]
             key = classify_known(ck, s, kind, v, rr) if (guard is not None) else None
             replay = {"schema": sg.schema_to_json(s), "value": sg.value_to_json(s.top, v),
-                      "observed": {kk: rr.get(kk) for kk in ("enc", "enc_exc", "dec", "dec_exc", "reenc", "reenc_exc")},
+                      "observed": {kk: rr.get(kk) for kk in ("enc", "enc_exc", "dec", "dec_exc", "read_exc", "reenc", "reenc_exc")},
                       "origin": origin, "stage": kind}
             if key is None and len([x for x in ck.violations if x["found_input"]]) < 3:
                 replay["specified_wire"] = explain(ck, s, v)
